@@ -8,7 +8,7 @@
 From Coq Require Import List NArith ZArith Bool.
 Import ListNotations.
 From Mos Require Import model.I64 Gen.BinOps model.Expr Gen.PassLoop model.PassLoop spec.PassLoopSpec Gen.C06Sites model.Sites
-  proofs.PassLoopProofs proofs.SitesProofs.
+  proofs.PassLoopProofs proofs.SitesProofs model.Spans proofs.SpansProofs.
 Open Scope Z_scope.
 
 (* ================================================================== the pass loop *)
@@ -160,6 +160,19 @@ Print Assumptions C06_target_pc_panics_iff.
 Theorem C06_source_map_add_panics_iff : forall tpc len, source_map_add tpc len = SPanic <-> two64 <= tpc + len.
 Proof. exact source_map_add_panics_iff. Qed.
 Print Assumptions C06_source_map_add_panics_iff.
+(* the branch arm adds 2 to the branch *target* while no segment exists yet: `bcc -1` panics in pass 0 *)
+Theorem C06_branch_pass0_panics_iff : forall target, in_i64 target = true -> (branch_base None target = SPanic <-> target = -1 \/ target = -2).
+Proof. exact branch_pass0_panics_iff. Qed.
+Print Assumptions C06_branch_pass0_panics_iff.
+Theorem C06_branch_offset_guarded : forall cur target,
+  0 <= target < 4611686018427387904 -> (match cur with Some p => 0 <= p < 4611686018427387904 | None => True end) ->
+  branch_offset cur target <> SPanic.
+Proof. exact branch_offset_guarded. Qed.
+Print Assumptions C06_branch_offset_guarded.
+(* `bcc 9223372036854775807` (pass 0) and `bcc -9223372036854775807` (later passes) *)
+Theorem C06_branch_offset_refuted : branch_offset None i64_max = SPanic /\ branch_offset (Some 49152) (-9223372036854775807) = SPanic.
+Proof. exact branch_offset_refuted. Qed.
+Print Assumptions C06_branch_offset_refuted.
 Theorem C06_pc_arithmetic_guarded : forall pc initial target len,
   Known_pc_out_of_range pc initial target = false -> 0 <= len <= 4294967296 ->
   segment_emit pc len <> SPanic /\ pc_add pc len <> SPanic /\
@@ -229,6 +242,31 @@ Print Assumptions C06_bank_padding_guarded.
 Theorem C06_bank_padding_refuted : bank_padding 1099511627776 1 true = SOk 1099511627775 /\ Known_bank_size_huge 1099511627776 = true.
 Proof. exact bank_padding_refuted. Qed.
 Print Assumptions C06_bank_padding_refuted.
+
+(* ================================================================== diagnostic locations (span construction, code_map.rs) *)
+(* diagnostics carry token spans or merges of two spans of the same statement: a merge of spans of one file stays in it *)
+Theorem C06_span_merge_in_file : forall f a b, in_file f a = true -> in_file f b = true -> in_file f (merge a b) = true.
+Proof. exact merge_in_file. Qed.
+Print Assumptions C06_span_merge_in_file.
+(* Span::subspan asserts: exact guard, and the result stays inside *)
+Theorem C06_subspan_panics_iff : forall s b e, subspan s b e = SpPanic <-> ~ (b <= e /\ s_low s + e <= s_high s).
+Proof. exact subspan_panics_iff. Qed.
+Print Assumptions C06_subspan_panics_iff.
+Theorem C06_subspan_in_file : forall f s b e r, in_file f s = true -> 0 <= b -> subspan s b e = SpOk r -> in_file f r = true.
+Proof. exact subspan_in_file. Qed.
+Print Assumptions C06_subspan_in_file.
+(* a span inside a file of the code map is looked up without a panic, in a file that contains it *)
+Theorem C06_look_up_in_file : forall files f s, disjoint files -> In f files -> in_file f s = true ->
+  exists g, look_up_span files s = SpOk g /\ in_file g s = true.
+Proof. exact look_up_in_file. Qed.
+Print Assumptions C06_look_up_in_file.
+(* files added to a code map never overlap *)
+Theorem C06_add_file_disjoint : forall files len f' files',
+  0 <= len -> disjoint files -> (forall f, In f files -> 0 <= f_len f) ->
+  (forall f, In f files -> match files with [] => True | h :: _ => f_high f <= f_high h end) ->
+  add_file files len = (files', f') -> disjoint files'.
+Proof. exact add_file_disjoint. Qed.
+Print Assumptions C06_add_file_disjoint.
 
 (* non-vacuity *)
 Example C06_example_align : align_padding 49153 256 = SOk 255 /\ align_padding 49153 0 = SDiag diag_align_not_positive /\
